@@ -347,3 +347,19 @@ pub fn stub_io_copy<R: Read + ?Sized, W: Write + ?Sized>(r: &mut R, w: &mut W) -
         total += n as u64;
     }
 }
+
+/// Same result as `v.resize(n, val)` for n <= 64, through loops with a fixed
+/// bound instead of an allocation of symbolic size (cache harnesses only).
+pub fn vec_resize(v: &mut Vec<u8>, n: usize, val: u8) {
+    kani::assume(n <= 64);
+    let old = v.len();
+    let mut nv: Vec<u8> = Vec::with_capacity(64);
+    let mut i = 0;
+    while i < 64 {
+        if i < n {
+            nv.push(if i < old { v[i] } else { val });
+        }
+        i += 1;
+    }
+    *v = nv;
+}
